@@ -649,6 +649,9 @@ def _show(sym):
     return "<%s>" % sym[1]
 
 
+OWN_MUTATION_ADEQUACY = True   # thorough() below mutates the anchored functions in memory (pathkit.run_mutants)
+
+
 def core(ctx):
     Core(ctx).run()
 
